@@ -682,6 +682,12 @@ def rule_txnoresp(ctx, R):
             R.note("%s returns NoResponse but terminates the process (SHUTDOWN): exempt" % fn)
             R.trivial(); continue
         if hits or regs:
+            guarded = exec_flag_guard(ctx, b, hits + regs)
+            if guarded:
+                n += 1
+                R.inst(fn, "noresponse", {"function": fn, "constructs_NoResponse": bool(hits), "registers_blocked_client": bool(regs), "only_when_not_executing_a_transaction": True, "flag": guarded})
+                continue
+        if hits or regs:
             n += 1
             R.inst(fn, "noresponse", {"function": fn, "constructs_NoResponse": bool(hits), "registers_blocked_client": bool(regs)})
             R.finding(fn, "reachable-from-exec:noresponse",
@@ -689,6 +695,63 @@ def rule_txnoresp(ctx, R):
                       b.loc((hits or regs)[0]), witness=ctx.cg.path(he, {fn}) or [])
         else:
             R.trivial()
+
+
+def exec_flag_guard(ctx, b, sites):
+    """a bool field of Server that (1) handle_exec stores `true` into before its execution loop
+    and `false` after it on every path, and (2) is tested in b so that every block in `sites`
+    lies on its false edge.  Returns the field name or None."""
+    he = ctx.prog.bodies.get(SERVER + "handle_exec")
+    if he is None:
+        return None
+    def flag_stores(body):
+        out = {}
+        for x, bb in enumerate(body.bbs):
+            if bb.get("cleanup"):
+                continue
+            for st in bb["s"]:
+                if st["k"] == "=" and st["r"]["k"] == "use" and op_is_const(st["r"]["o"]):
+                    fs = [e["f"] for e in st["l"]["p"] if isinstance(e, dict) and "f" in e]
+                    if fs and fs[-1].startswith("network::server::Server.") and body.locals[1].endswith("network::server::Server"):
+                        v = const_int(st["r"]["o"])
+                        out.setdefault(fs[-1], []).append((x, v))
+        return out
+    st_he = flag_stores(he)
+    execs = [i for i, t in he.calls() if callee(t) in (SERVER + "process_command_parts", SERVER + "process_normal_command")]
+    if not execs:
+        return None
+    for fld, ws in st_he.items():
+        trues = [x for x, v in ws if v == 1]; falses = [x for x, v in ws if v == 0]
+        if not trues or not falses:
+            continue
+        if not all(any(cfg.dominates(he, t_, e) for t_ in trues) for e in execs):
+            continue
+        # after the loop: every path from an execution call to the exit passes a false store
+        if cfg.path_avoiding(he, execs, set(he.exits()), set(falses)) is not None:
+            continue
+        # the test in b: switch on a copy of the field; sites in the region of value 0
+        for x, bb in enumerate(b.bbs):
+            t = bb["t"]
+            if t["k"] != "switch":
+                continue
+            pl = op_place(t["d"]) if not op_is_const(t["d"]) else None
+            src = None
+            if pl is not None:
+                if any(isinstance(e, dict) and e.get("f") == fld for e in pl["p"]):
+                    src = True
+                else:
+                    for kind, db, d in prov.build_defs(b).get(pl["l"], ()):
+                        if kind == "stmt" and d["r"]["k"] == "use" and not op_is_const(d["r"]["o"]) and any(isinstance(e, dict) and e.get("f") == fld for e in op_place(d["r"]["o"])["p"]):
+                            src = True
+            if not src:
+                continue
+            zero = dict(t["ts"]).get(0)
+            if zero is None:
+                continue
+            reg = cfg.edge_dom_set(b, x, zero)
+            if all(s_ in reg for s_ in sites):
+                return fld
+    return None
 
 
 # ---------------------------------------------------------------------------------------
@@ -826,3 +889,101 @@ def rule_codec_pos(ctx, R):
             R.finding(b.fn, "position:advanced-on-incomplete", "the parser moves its position although the frame is incomplete: the next chunk is parsed from the middle of the frame (chunking changes the result)", b.loc(none_adv[0]))
         if not after:
             R.finding(b.fn, "position:never-advanced", "the parser never advances past a parsed frame", b.loc(c))
+
+
+MIN_WIRE_ELEMENT = 3      # `_\r\n`, `+\r\n`, `-\r\n`: the shortest RESP element
+
+
+def rule_codec_incomplete(ctx, R):
+    """an aggregate parser answers `need more data` only because a sub-parser did (the header
+    line or an element was incomplete).  A shortcut that decides `incomplete` from the declared
+    element count is accepted only if its per-element estimate does not exceed the shortest
+    element on the wire (3 bytes) -- otherwise a complete frame of short elements is held back
+    until later bytes arrive (or for ever if it is the last on the connection)."""
+    n = 0; nfn = 0
+    for fn, b in sorted(ctx.prog.bodies.items()):
+        if not fn.startswith(PARSER) or "::tests::" in fn or b.kind == "Closure":
+            continue
+        if not b.locals[0].startswith("std::result::Result<std::option::Option<(protocol::resp::RespFrame, usize)>"):
+            continue
+        rec = [i for i, t in b.calls() if callee(t) == PARSER + "parse_frame"]
+        if not rec or fn == PARSER + "parse_frame":
+            continue
+        nfn += 1
+        # regions where a sub-parser's Option result is None
+        none_regs = set()
+        for x, bb in enumerate(b.bbs):
+            t = bb["t"]
+            if t["k"] != "switch" or bb.get("cleanup"):
+                continue
+            dl = op_local(t["d"])
+            for st in bb["s"]:
+                if st["k"] == "=" and st["l"]["l"] == dl and st["r"]["k"] == "discr" and b.locals[st["r"]["p"]["l"]].startswith("std::option::Option<("):
+                    P = prov.origins(b, st["r"]["p"]["l"])
+                    if any(r[0] == "call" and callee(b.term(r[2])).startswith(PARSER) for r in P.roots):
+                        ts = dict(t["ts"])
+                        if 0 in ts:
+                            none_regs |= cfg.edge_dom_set(b, x, ts[0])
+        # blocks that build Ok(None)
+        for x, bb in enumerate(b.bbs):
+            if bb.get("cleanup"):
+                continue
+            for st in bb["s"]:
+                if st["k"] == "=" and st["l"]["l"] == 0 and not st["l"]["p"] and st["r"]["k"] == "agg" and st["r"]["a"].endswith("Result::Ok") and st["r"]["o"]:
+                    o = st["r"]["o"][0]
+                    if op_is_const(o):
+                        continue
+                    isnone = False
+                    for kind, db, d in prov.build_defs(b).get(op_place(o)["l"], ()):
+                        if kind == "stmt" and d["r"]["k"] == "agg" and d["r"]["a"].endswith("Option::None"):
+                            isnone = True
+                    if not isnone:
+                        continue
+                    n += 1
+                    if x in none_regs:
+                        R.inst(fn, "incomplete-return", None); continue
+                    # a length shortcut: find the multiplier constants in comparisons that control x
+                    ks = []
+                    for y, by in enumerate(b.bbs):
+                        ty = by["t"]
+                        if ty["k"] != "switch":
+                            continue
+                        if not any(x in cfg.edge_dom_set(b, y, tgt) for tgt in set(b.succs(y))):
+                            continue
+                        for s2 in by["s"]:
+                            if s2["k"] == "=" and s2["r"]["k"] == "bin" and s2["r"]["op"] in ("Lt", "Le", "Gt", "Ge"):
+                                for side in (s2["r"]["a"], s2["r"]["b"]):
+                                    ks += _mul_consts(b, side)
+                    est = 1
+                    for k in ks:
+                        est *= k
+                    ok = bool(ks) and est <= MIN_WIRE_ELEMENT
+                    R.inst(fn, "incomplete-return", {"function": fn, "line": st.get("line"), "from_sub_parser": False, "per_element_estimate": est if ks else None})
+                    if not ok:
+                        R.finding(fn, "incomplete:decided-by-length-estimate" if ks else "incomplete:not-from-sub-parser",
+                                  "%s answers `need more data` (line %s) %s: a complete frame whose elements are shorter (`_\\\\r\\\\n` is 3 bytes) is not delivered until more bytes arrive, so the result depends on how the stream is chunked" % (
+                                      fn.split("::")[-1], st.get("line"), ("from an estimate of %d bytes per declared element" % est) if ks else "without any sub-parser having reported an incomplete element"), "%s:%s" % (b.file, st.get("line")))
+    R.floor("aggregate_parsers", nfn)
+    R.floor("incomplete_returns", n)
+
+
+def _mul_consts(b, o, depth=5):
+    """constant factors of a product feeding operand o (through checked-mul tuples and copies)"""
+    if op_is_const(o) or depth == 0:
+        return []
+    out = []
+    for kind, db, d in prov.build_defs(b).get(op_place(o)["l"], ()):
+        if kind != "stmt":
+            continue
+        r = d["r"]
+        if r["k"] == "bin" and r["op"].replace("WithOverflow", "") == "Mul":
+            for side in (r["a"], r["b"]):
+                if op_is_const(side):
+                    v = const_int(side)
+                    if v is not None:
+                        out.append(v)
+                else:
+                    out += _mul_consts(b, side, depth - 1)
+        elif r["k"] == "use":
+            out += _mul_consts(b, r["o"], depth - 1)
+    return out
